@@ -10,6 +10,10 @@
 //	    SetPrimary / Enable / Disable / Delete of the i-th created key); every reached state with a
 //	    primary is checked with the universe of all keys that ever existed plus foreign keys.
 //
+//   (c) sections collision/<class> (AEAD, DAEAD, MAC, signature, hybrid - the prefix-map wrappers): for every RAW
+//       key type an output starting with 0x01 / 0x00 is searched (<= 4000 messages / entropy-tape seeds); the
+//       OTHER key's id is chosen after the fact so that the RAW output carries its TINK / CRUNCHY / LEGACY
+//       prefix; keysets [P,R] / [R,P] with either primary and 3-key shapes with the colliding key DISABLED.
 // For every keyset the wrapped primitive is built with tink's factory, its output is judged (framing
 // of the primary; accepted by exactly the single-key primitives the model names) and it is probed
 // with outputs of EVERY key of a universe (the keyset's keys and foreign keys: same id+variant but
@@ -167,10 +171,10 @@ func (c *class) probe(k ref.SelKey) ([]byte, error) {
 	var out cachedBytes
 	hp, hpub, err := c.handles(singleEntry(nk), nil)
 	if err == nil {
-		var produce func() ([]byte, error)
+		var produce produceFn
 		if produce, err = c.producer(c.prodHandle(hp, hpub)); err == nil {
-			if out.b, err = produce(); err == nil {
-				if ok, known := independentlyValid(nk, out.b); known && !ok {
+			if out.b, err = produce(nil); err == nil {
+				if ok, known := independentlyValid(nk, out.b, nil); known && !ok {
 					err = errNotUnderOwnKey{fmt.Sprintf("the output %x of the one-key keyset {%s} is not valid under that key's material and framing (independent oracle)", out.b, keyDesc(nk))}
 				}
 			}
@@ -263,6 +267,7 @@ func (c *class) universe(es []ref.SelEntry, fmat int) []ref.SelKey {
 type probeT struct {
 	maker ref.SelKey
 	data  []byte
+	msg   []byte // nil = the default message
 	note  string
 }
 
@@ -320,7 +325,7 @@ func (c *class) forcedCiphertext(r ref.SelKey, pre []byte) ([]byte, error) {
 	defer tape.Unbind()
 	iv := append(bytes.Clone(pre), 0xC0, 0x05, 0xC0, 0x05, 0xC0, 0x05, 0xC0)
 	t.Answer(t.Mark(), iv)
-	ct, err := produce()
+	ct, err := produce(nil)
 	if err != nil {
 		return nil, err
 	}
@@ -349,7 +354,7 @@ func sampleRecord(c *class, es []ref.SelEntry, p probeT, verdict bool, ids []uin
 }
 
 // check judges the wrapped primitives built from (hp, hpub) against the model of keyset es.
-func (c *class) check(es []ref.SelEntry, uni []ref.SelKey, hp, hpub *keyset.Handle, rec *recorder, rep reportFn) (st stats) {
+func (c *class) check(es []ref.SelEntry, uni []ref.SelKey, extra []probeT, hp, hpub *keyset.Handle, rec *recorder, rep reportFn) (st stats) {
 	desc := keysetDesc(es)
 	if c.isPRF {
 		return c.checkPRF(es, hp, rec, rep)
@@ -375,7 +380,7 @@ func (c *class) check(es []ref.SelEntry, uni []ref.SelKey, hp, hpub *keyset.Hand
 	}
 
 	// output rule
-	out, err := produce()
+	out, err := produce(nil)
 	if err != nil {
 		rep("produce-error", "%s keyset %s: producing fails: %v", c.name, desc, err)
 		return
@@ -389,7 +394,7 @@ func (c *class) check(es []ref.SelEntry, uni []ref.SelKey, hp, hpub *keyset.Hand
 	if ok, why := c.framingOK(out, prim.SelKey); !ok {
 		rep("output-framing", "%s keyset %s: %s", c.name, desc, why)
 	}
-	if ok, known := independentlyValid(prim.SelKey, out); known && !ok {
+	if ok, known := independentlyValid(prim.SelKey, out, nil); known && !ok {
 		rep("output-not-by-primary", "%s keyset %s: the output %x is not valid under the primary's material and framing (independent oracle)", c.name, desc, out)
 	}
 	judges := []ref.SelKey{}
@@ -403,7 +408,7 @@ func (c *class) check(es []ref.SelEntry, uni []ref.SelKey, hp, hpub *keyset.Hand
 			rep("harness", "%s: single-key primitive of %s cannot be built: %v", c.name, keyDesc(u), err)
 			continue
 		}
-		got, _ := sa(out)
+		got, _ := sa(out, nil)
 		want := ref.SelMatches(c.rule, u, prim.SelKey)
 		st.probes++
 		if got && !want {
@@ -430,10 +435,11 @@ func (c *class) check(es []ref.SelEntry, uni []ref.SelKey, hp, hpub *keyset.Hand
 	fp := c.forcedProbes(es, rep)
 	st.forced = len(fp)
 	probes = append(probes, fp...)
+	probes = append(probes, extra...)
 	for _, p := range probes {
 		ids := ref.SelAcceptors(c.rule, es, p.maker)
 		want := len(ids) > 0
-		got, anomaly := accept(p.data)
+		got, anomaly := accept(p.data, p.msg)
 		st.probes++
 		if got {
 			st.accepted++
@@ -676,7 +682,7 @@ func keysetsBody(c *class) func(x *h.X) {
 			x.Fail("construct", "%s keyset %s: cannot build the handle: %v", c.name, keysetDesc(es), err)
 			return
 		}
-		st := c.check(es, c.universe(es, foreignMat), hp, hpub, rec, x.Fail)
+		st := c.check(es, c.universe(es, foreignMat), nil, hp, hpub, rec, x.Fail)
 		x.NonTrivial()
 		x.Eval(st.probes)
 		x.OutcomeN("accept", st.accepted)
@@ -688,6 +694,143 @@ func keysetsBody(c *class) func(x *h.X) {
 		if st.forced > 0 {
 			x.Count("probes_with_forced_iv", st.forced)
 		}
+		h.AddMC(1, int64(st.probes), 1)
+	}
+}
+
+// ---- (c) forced prefix collisions ----------------------------------------------------------------------------
+// For every class whose wrapper looks candidates up in the prefix map, an output o of a RAW key is SEARCHED
+// (messages for deterministic primitives, entropy-tape seeds for randomised ones) whose first byte is 0x00 or
+// 0x01; the id of the OTHER key is then chosen after the fact as big-endian(o[1:5]) (TINK for 0x01, CRUNCHY /
+// LEGACY for 0x00), so that o carries that key's 5-byte output prefix. The wrapped primitive tries the prefixed
+// key first, fails, and must still fall back to the RAW key (and name the RAW key in monitoring).
+
+const collisionTries = 4000
+
+type collision struct {
+	raw   ref.SelKey
+	out   []byte
+	msg   []byte
+	tries int
+	err   error
+}
+
+func seededSrc(seed int) func(off int) byte {
+	return func(off int) byte { return tape.CounterSrc(off + 4*104729*(seed+1)) }
+}
+
+func (c *class) findCollision(sh shape, first byte) *collision {
+	type ck struct {
+		sh    shape
+		first byte
+	}
+	if v, ok := c.collisions.Load(ck{sh, first}); ok {
+		return v.(*collision)
+	}
+	col := &collision{raw: sh.key(0, 0)}
+	defer c.collisions.Store(ck{sh, first}, col)
+	hp, hpub, err := c.handles(singleEntry(col.raw), nil)
+	if err != nil {
+		col.err = err
+		return col
+	}
+	produce, err := c.producer(c.prodHandle(hp, hpub))
+	if err != nil {
+		col.err = err
+		return col
+	}
+	t := tape.NewTape(nil)
+	tape.Bind(t)
+	defer tape.Unbind()
+	for i := 0; i < collisionTries; i++ {
+		t.Rewind()
+		t.Src = seededSrc(i)
+		m := append(bytes.Clone(msg), byte(i>>8), byte(i))
+		o, err := produce(m)
+		if err != nil {
+			col.err = err
+			return col
+		}
+		if len(o) >= 5 && o[0] == first {
+			col.out, col.msg, col.tries = o, m, i+1
+			return col
+		}
+	}
+	col.tries = collisionTries
+	return col
+}
+
+func collisionBody(c *class) func(x *h.X) {
+	var raws []shape
+	for _, s := range c.shapes {
+		if s.V == ref.Raw {
+			raws = append(raws, s)
+		}
+	}
+	return func(x *h.X) {
+		rs := h.Pick(x, "raw-key-type", raws)
+		first := h.Pick(x, "first-output-byte", []byte{1, 0})
+		col := c.findCollision(rs, first)
+		if col.err != nil {
+			x.Fail("harness", "%s: searching an output of %s starting with %02x: %v", c.name, rs, first, col.err)
+			return
+		}
+		if col.out == nil {
+			x.Outcome(fmt.Sprintf("collision-not-found:%s/%s/first-byte-%02x", c.name, rs.Typ, first))
+			return
+		}
+		id := uint32(col.out[1])<<24 | uint32(col.out[2])<<16 | uint32(col.out[3])<<8 | uint32(col.out[4])
+		var pres []shape
+		for _, s := range c.shapes {
+			if (col.out[0] == 1 && s.V == ref.Tink) || (col.out[0] == 0 && (s.V == ref.Crunchy || s.V == ref.Legacy)) {
+				pres = append(pres, s)
+			}
+		}
+		ps := h.Pick(x, "colliding-prefixed-key", pres)
+		P := ref.SelEntry{SelKey: ps.key(id, 1), Status: ref.SelEnabled}
+		R := ref.SelEntry{SelKey: rs.key(0x52, 0), Status: ref.SelEnabled}
+		if !bytes.HasPrefix(col.out, ref.SelPrefix(P.SelKey)) {
+			x.Fail("harness", "%s: collision %x does not carry the prefix of %s", c.name, col.out[:5], keyDesc(P.SelKey))
+			return
+		}
+		prim := func(e ref.SelEntry) ref.SelEntry { e.Primary = true; return e }
+		dis := func(e ref.SelEntry) ref.SelEntry { e.Status = ref.SelDisabled; return e }
+		// X: an unrelated enabled prefixed key (neighbour id) for the 3-key layouts
+		X := ref.SelEntry{SelKey: ps.key(id^1, 1), Status: ref.SelEnabled}
+		var es []ref.SelEntry
+		switch h.Pick(x, "layout", []string{"[P*,R]", "[P,R*]", "[R*,P]", "[R,P*]", "[P disabled,R*,X]", "[R,X*,P disabled]"}) {
+		case "[P*,R]":
+			es = []ref.SelEntry{prim(P), R}
+		case "[P,R*]":
+			es = []ref.SelEntry{P, prim(R)}
+		case "[R*,P]":
+			es = []ref.SelEntry{prim(R), P}
+		case "[R,P*]":
+			es = []ref.SelEntry{R, prim(P)}
+		case "[P disabled,R*,X]":
+			es = []ref.SelEntry{dis(P), prim(R), X}
+		default:
+			es = []ref.SelEntry{R, prim(X), dis(P)}
+		}
+		var rec *recorder
+		var ann map[string]string
+		if c.monitored {
+			rec = newRecorder()
+			defer rec.close()
+			ann = rec.annotations()
+		}
+		hp, hpub, err := c.handles(es, ann)
+		if err != nil {
+			x.Fail("construct", "%s keyset %s: cannot build the handle: %v", c.name, keysetDesc(es), err)
+			return
+		}
+		extra := []probeT{{maker: norm(R.SelKey), data: col.out, msg: col.msg,
+			note: fmt.Sprintf(" [output %x... found after %d tries, starts with the output prefix of %s]", col.out[:5], col.tries, keyDesc(P.SelKey))}}
+		st := c.check(es, c.universe(es, foreignMat), extra, hp, hpub, rec, x.Fail)
+		x.NonTrivial()
+		x.Eval(st.probes)
+		x.Outcome(fmt.Sprintf("collision:%s/%s~%s", c.name, rs.Typ, ps))
+		x.Count("collision_probes", 1)
 		h.AddMC(1, int64(st.probes), 1)
 	}
 }
@@ -855,7 +998,7 @@ func (r *rotation) run(hist []int, verbose bool) (string, bool, bool) {
 	}
 	prim, _ := ref.SelPrimary(es)
 	uni := append(append([]ref.SelKey{}, ever...), shapeOf(prim.SelKey).key(prim.ID, rotForeignMat))
-	st := c.check(es, dedupe(uni), hp, hpub, nil, rep)
+	st := c.check(es, dedupe(uni), nil, hp, hpub, nil, rep)
 	h.AddMC(0, int64(st.probes), 0)
 	return state, true, false
 }
@@ -914,6 +1057,11 @@ func main() {
 	var secs []h.Section
 	for _, c := range classes {
 		secs = append(secs, h.Section{Name: "keysets/" + c.name, Body: keysetsBody(c), Bound: -1})
+	}
+	for _, c := range classes {
+		if !c.isPRF && (c.rule == ref.SelPrefixRule || c.rule == ref.SelPrefixLegacyRule) {
+			secs = append(secs, h.Section{Name: "collision/" + c.name, Body: collisionBody(c), Bound: -1})
+		}
 	}
 	for _, c := range classes {
 		secs = append(secs, h.Section{Name: "rotation/" + c.name, Body: rotationBody(c, "rotation/"+c.name, 3, true), Bound: -1, Serial: true})
